@@ -6,11 +6,12 @@ from harness import lib, oracles
 from harness.lib import dense, close, consistent
 from harness.props.c01 import gen_tt, rranks, snapshot, unchanged
 from harness.props.c03 import thr_lit
-from harness.props.c07 import nonsym_op, max_ranks
+from harness.props.c07 import nonsym_op, max_ranks, feasible_ranks
 
 import scikit_tt.tensor_train as ttm
 from scikit_tt.tensor_train import TT
 import scikit_tt.solvers.ode as ode
+lib.guard_expm(ode)
 
 PROP_FILES = ['Props/C11.v']
 REQ = ['SkTT.Check.C11']
@@ -160,7 +161,7 @@ def side_case(seed):
                     return ret('state %d differs from exp(-i t H) x0 at maximal ranks: max err %.2e' % (k, err), symptom=sym)
             return ret(None)
         if clause == 'conserve1':
-            ranks = [min(a, b) for a, b in zip(rranks(rng, order, 2), mr)]
+            ranks = feasible_ranks([min(a, b) for a, b in zip(rranks(rng, order, 2), mr)], dims)
             x0 = gen_tt(rng, dims, [1] * order, ranks, cplx or rng.random() < 0.3, 'float')
             desc['ranks'] = ranks
             xv = dense(x0.cores).reshape(n)
@@ -211,7 +212,7 @@ def side_case(seed):
                 return ret('krylov with full Krylov dimension differs from exp(-i t H) x0: max err %.2e' % err, symptom='wrong')
             return ret(None)
         # lowrank_shape: all drivers at non-maximal ranks / active truncation: inputs untouched, trajectory shape, consistent states
-        ranks = [min(a, b) for a, b in zip(rranks(rng, order, 2), mr)]
+        ranks = feasible_ranks([min(a, b) for a, b in zip(rranks(rng, order, 2), mr)], dims)
         x0 = gen_tt(rng, dims, [1] * order, ranks, cplx, 'float')
         drv = rng.choice(['tdvp1site', 'tdvp2site', 'tdvp', 'krylov'])
         desc['driver'] = drv
